@@ -627,7 +627,8 @@ def run_deterministic(kind, seq, driver=None):
     run_shaped = seq["shape"] == "run"
     readings = []
     with patched_clock(fake):
-        rig = Rig(kind, float(Fraction(seq["max_interval"])))
+        # the two delays only pace the update THREAD (not started here): whether a wake-up renders must not depend on them
+        rig = Rig(kind, float(Fraction(seq["max_interval"])), delays=(1.0e6, 1.0e6))
         with rig.recording():
             for idx, e in enumerate(events):
                 try:
@@ -984,7 +985,7 @@ def public_factory_cases(only=None):
     import uberjob.progress as up
     viol, done = [], 0
     for fail in (False, True):
-        for mode in ("default", "console", "html-path", "html-callable", "composite"):
+        for mode in ("default", "console", "console-ascii", "html-path", "html-callable", "composite"):
             if only and (mode, fail) != tuple(only):
                 continue
             with tempfile.TemporaryDirectory() as d:
@@ -1005,7 +1006,7 @@ def public_factory_cases(only=None):
                 chunks = []
                 path = os.path.join(d, "progress.html")
                 kw = {}
-                if mode == "console":
+                if mode in ("console", "console-ascii"):
                     kw["progress"] = up.console_progress
                 elif mode == "html-path":
                     kw["progress"] = up.html_progress(path)
@@ -1014,6 +1015,11 @@ def public_factory_cases(only=None):
                 elif mode == "composite":
                     kw["progress"] = up.composite_progress(up.console_progress, up.html_progress(path))
                 buf = io.StringIO()
+                raw = None
+                if mode == "console-ascii":
+                    # a terminal / log that can only take ASCII: plain scopes and counts must still get through
+                    raw = io.BytesIO()
+                    buf = io.TextIOWrapper(raw, encoding="ascii", errors="strict", write_through=True)
                 exc = None
                 with warnings.catch_warnings():
                     warnings.simplefilter("ignore")
@@ -1032,7 +1038,9 @@ def public_factory_cases(only=None):
                                  "what": f"run with the {mode} display: outcome {exc!r}, a call {'fails' if fail else 'does not fail'}"})
                     continue
                 texts = []
-                if mode in ("default", "console", "composite"):
+                if mode == "console-ascii":
+                    texts.append(("terminal", raw.getvalue().decode("ascii")))
+                elif mode in ("default", "console", "composite"):
                     texts.append(("terminal", buf.getvalue()))
                 if mode in ("html-path", "composite"):
                     texts.append(("file", open(path, encoding="utf-8").read() if os.path.exists(path) else None))
